@@ -33,7 +33,7 @@ func init() {
 			if m.C("overlapping_calls") < 10000 {
 				u = append(u, fmt.Sprintf("only %d overlapping calls", m.C("overlapping_calls")))
 			}
-			for _, c := range []string{"histories_sequential", "histories_concurrent", "snapshots_compared", "calls_eval", "calls_tryeval", "calls_dump", "calls_dumptable", "calls_failing", "programs_deep_stack", "programs_event_mode", "race_histories"} {
+			for _, c := range []string{"histories_sequential", "histories_concurrent", "snapshots_compared", "calls_eval", "calls_tryeval", "calls_dump", "calls_dumptable", "calls_failing", "programs_deep_stack", "programs_big_list_constants", "programs_event_mode", "race_histories"} {
 				if m.C(c) == 0 {
 					u = append(u, c+" = 0")
 				}
@@ -72,8 +72,62 @@ func outcomeEq(a, b Outcome) bool {
 	return valEq(a.V, b.V)
 }
 
+// bigList: an unsorted list literal / constant with n distinct elements
+func bigIntList(r *rand.Rand, n int) []int64 {
+	l := make([]int64, n)
+	for i := range l {
+		l[i] = int64(i*7 - 300)
+	}
+	r.Shuffle(n, func(i, j int) { l[i], l[j] = l[j], l[i] })
+	return l
+}
+
+func bigStrList(r *rand.Rand, n int) []string {
+	l := make([]string, n)
+	for i := range l {
+		l[i] = fmt.Sprintf("s%03d", (i*37)%1000)
+	}
+	r.Shuffle(n, func(i, j int) { l[i], l[j] = l[j], l[i] })
+	return l
+}
+
 func c07Tree(r *rand.Rand, k int) (*Node, string) {
-	switch k % 7 {
+	switch k % 9 {
+	case 7, 8:
+		// large unsorted list constants on either side of the scan/hash switch, against list variables
+		n := []int{30, 60, 99, 100, 120, 200}[r.Intn(6)]
+		var lst, other *Node
+		if r.Intn(2) == 0 {
+			l := bigIntList(r, n)
+			lst = Lit(l)
+			if r.Intn(2) == 0 {
+				lst = ConstRef("KBIGI", l)
+			}
+			other = Var("li0", TIList)
+		} else {
+			l := bigStrList(r, n)
+			lst = Lit(l)
+			if r.Intn(2) == 0 {
+				lst = ConstRef("KBIGS", l)
+			}
+			other = Var("ls0", TSList)
+		}
+		var t *Node
+		switch r.Intn(4) {
+		case 0:
+			t = Op("overlap", TBool, lst, other)
+		case 1:
+			t = Op("overlap", TBool, other, lst)
+		case 2:
+			t = Op("and", TBool, Var("b0", TBool), Op("overlap", TBool, lst, other))
+		default:
+			if lst.Ty == TIList {
+				t = Op("or", TBool, Op("in", TBool, Var("i0", TInt), lst), Op("overlap", TBool, other, lst.Clone()))
+			} else {
+				t = Op("or", TBool, Op("in", TBool, Var("s0", TStr), lst), Op("overlap", TBool, other, lst.Clone()))
+			}
+		}
+		return t, "big-list-constants"
 	case 5:
 		// deep operand stack: more than 16 pending operands
 		n := 17 + r.Intn(30)
@@ -122,6 +176,18 @@ func c07Build(w *W, r *rand.Rand, k int) *c07Prog {
 		w.Inc("programs_event_mode")
 	}
 	bs := genBindings(r, tree, 6, 0.1)
+	if stratum == "big-list-constants" {
+		// list variables long enough to reach the hashing path with the constant
+		for i := range bs {
+			if _, ok := bs[i].Vals["li0"]; ok && i%3 != 2 {
+				bs[i].Vals["li0"] = bigIntList(r, []int{10, 80, 150}[r.Intn(3)])
+			}
+			if _, ok := bs[i].Vals["ls0"]; ok && i%3 != 2 {
+				bs[i].Vals["ls0"] = bigStrList(r, []int{10, 80, 150}[r.Intn(3)])
+			}
+		}
+		w.Inc("programs_big_list_constants")
+	}
 	for i, b := range bs {
 		if i%2 == 1 {
 			av := map[string]bool{}
